@@ -65,10 +65,10 @@ def run(prog, chk):
     if clone_field_coverage(prog, chk, "C11.clone", ["KSI_PublicationRecord_clone", "KSI_Config_clone", "KSI_AggregationReq_clone", "KSI_ExtendReq_clone",
                                                     "KSI_Policy_clone", "KSI_DataHash_clone", "KSI_TLV_clone"]) < 4:
         raise AnalysisBroken("C11.clone: fewer than 4 field-by-field clone functions recognised")
-    _run(prog, chk)
-    dump_closure_table(prog, chk)
-    anchor_removal_table(prog, chk)
-    shared_edit_rule(prog, chk)
+    chk.defer(_run, prog, chk)
+    chk.defer(dump_closure_table, prog, chk)
+    chk.defer(anchor_removal_table, prog, chk)
+    chk.defer(shared_edit_rule, prog, chk)
 
 
 def _run(prog, chk):
